@@ -339,6 +339,8 @@ func cmdCheck(args []string) int {
 	}
 	os.MkdirAll(filepath.Join(outDir(), "replays", id), 0755)
 	nviol := 0
+	replayTries := 0
+	replayT0 := time.Now()
 	seenViol := map[string]bool{}
 	for _, j := range still {
 		base := j.o.name
@@ -349,7 +351,9 @@ func cmdCheck(args []string) int {
 		nviol++
 		rp := writeReplay(eng, id, j, work)
 		replayed := false
-		if j.o.res == "sat" {
+		if j.o.res == "sat" && replayTries < 4 && time.Since(replayT0) < 180*time.Second {
+			// (a few counterexamples per run are replayed on the real code; the rest keep their model)
+			replayTries++
 			replayed = tryReplay(eng, id, j, rp)
 		}
 		if replayed {
